@@ -2,8 +2,10 @@ package sim
 
 import (
 	"bytes"
+	"context"
 	"encoding/json"
 	"fmt"
+	"github.com/luthersystems/elps/parser"
 	"os"
 	"regexp"
 	"runtime"
@@ -33,6 +35,16 @@ type DetCase struct {
 	Burst  int     `json:"burst"`
 	Clock  bool    `json:"clock"`                            // program reads the clock / sleeps: run inside a fake-clock bubble
 	Expect string  `json:"expect_transcript_hash,omitempty"` // set by the driver for cross-process replays
+	// CancelAt: every repetition runs under a context that reports
+	// cancellation (or, with Deadline, an expired deadline) from its k-th
+	// poll on: the point of interruption is the same in every repetition, so
+	// the transcript -- the error message above all -- must be too
+	CancelAt int64 `json:"cancel_at,omitempty"`
+	Deadline bool  `json:"deadline,omitempty"`
+	// Shared: the source is parsed ONCE (a lisp.Program an embedder caches)
+	// and that one parse is loaded into every fresh runtime of the
+	// repetitions; the first run parses freshly
+	Shared bool `json:"shared,omitempty"`
 }
 
 type detEngine struct{ t *testing.T }
@@ -577,8 +589,43 @@ func (e *detEngine) Gen(r *Rand, tier string) any {
 		c.Burst = r.Range(2000, 6000)
 		c.Chunks = []int{r.Range(16, 64)}
 	}
+	if r.Chance(1, 5) {
+		// in-place work on literals, macro arguments and &rest lists, printed
+		// before and after: with a parse shared by the repetitions nothing a
+		// runtime does may reach the next runtime through the parsed program
+		ig := &ilvGen{r: r.Fork(), kind: map[string]string{}}
+		var body []*Node
+		for i := r.Range(2, 5); i > 0; i-- {
+			body = append(body, Call("debug-print", Call("ignore-errors", ig.mutate())))
+			if len(ig.lits) > 0 {
+				body = append(body, Call("debug-print", Call(PickStr(r, ig.lits))))
+			}
+		}
+		pre := []*Node{Call("set", QS("ctr"), I(1))}
+		if ig.needConst {
+			pre = append(pre, L(A("defmacro"), A("constant"), L(A("x")), A("x")))
+		}
+		var litReads []*Node
+		for _, l := range ig.lits {
+			litReads = append(litReads, Call("debug-print", Call(l)))
+		}
+		c.Forms = append(append(append(append(pre, ig.defs...), litReads...), body...), c.Forms...)
+		c.Shared = true
+	} else if r.Chance(1, 4) {
+		c.Shared = true
+	}
+	switch r.Intn(10) {
+	case 0:
+		c.CancelAt = int64(r.Range(1, 40))
+	case 1:
+		c.CancelAt = int64(r.Range(1, 3000))
+		c.Deadline = r.Bool()
+	case 2:
+		c.Knobs.MaxSteps = int64(r.Range(3, 400))
+	}
 	if r.Chance(1, 8) {
 		c.Clock = true
+		c.CancelAt, c.Shared = 0, false
 		c.Forms = append([]*Node{
 			Call("set", QS("t0"), Call("time:utc-now")),
 			Call("time:sleep", Call("time:parse-duration", Str(fmt.Sprintf("%dms", r.Range(1, 5000))))),
@@ -598,6 +645,8 @@ type transcript struct {
 	Trace   string
 	Steps   int64
 }
+
+var detSharedSrc string // the source detOpts.prog was parsed from
 
 var validatorName = regexp.MustCompile(`_validation_fun_[0-9]+`)
 
@@ -638,12 +687,41 @@ func (c *DetCase) source() string {
 	return src
 }
 
+// detOpts are set by Run for the whole case (every repetition alike).
+var detOpts struct {
+	cancelAt int64
+	deadline bool
+	prog     lisp.Program // with hasProg: repetitions load this one parse
+	hasProg  bool
+}
+
 func detRun(k Knobs, src string, chunk int) (transcript, error) {
 	w, err := NewWorld(k)
 	if err != nil {
 		return transcript{}, err
 	}
 	var out Outcome
+	if detOpts.cancelAt > 0 {
+		w.Ctx.CancelAt = detOpts.cancelAt
+		if detOpts.deadline {
+			w.Ctx.Cause = context.DeadlineExceeded
+		}
+		switch {
+		case chunk > 0:
+			out = w.Call(func() *lisp.LVal {
+				return w.Env.LoadContext(w.Ctx, "det", &chunkReader{src: []byte(src), chunk: chunk})
+			})
+		case detOpts.hasProg && src == detSharedSrc:
+			out = w.Call(func() *lisp.LVal { return w.Env.LoadProgramContext(w.Ctx, detOpts.prog) })
+		default:
+			out = w.Call(func() *lisp.LVal { return w.Env.LoadStringContext(w.Ctx, "det", src) })
+		}
+		return mkTranscript(out), nil
+	}
+	if chunk == 0 && detOpts.hasProg && src == detSharedSrc {
+		out = w.Call(func() *lisp.LVal { return w.Env.LoadProgram(detOpts.prog) })
+		return mkTranscript(out), nil
+	}
 	if chunk > 0 {
 		out = w.Call(func() *lisp.LVal { return w.Env.Load("det", &chunkReader{src: []byte(src), chunk: chunk}) })
 	} else {
@@ -716,12 +794,27 @@ func (e *detEngine) Run(ci any, st *Stats) *Violation {
 
 	src := c.source()
 	noise := Src(c.Noise)
+	detOpts.cancelAt, detOpts.deadline, detOpts.hasProg, detSharedSrc = c.CancelAt, c.Deadline, false, ""
+	defer func() { detOpts.cancelAt, detOpts.deadline, detOpts.hasProg, detSharedSrc = 0, false, false, "" }()
 	ref, err := detRun(c.Knobs, src, 0)
 	if err != nil {
 		return Violf("harness", "%v", err)
 	}
 	st.Runs++
 	st.SimSteps += ref.Steps
+	if c.CancelAt > 0 && strings.Contains(ref.Result, "context-cancelled") {
+		st.Inc("fault_cancel_fired")
+	}
+	if strings.Contains(ref.Result, "step-limit-exceeded") {
+		st.Inc("fault_budget_fired")
+	}
+	if c.Shared {
+		// from here on the repetitions in fresh runtimes load ONE parse
+		if p, perr := lisp.ReadProgram(parser.NewReader(), "det", strings.NewReader(src)); perr == nil {
+			detOpts.prog, detOpts.hasProg, detSharedSrc = p, true, src
+			st.Inc("reach_repetitions_share_one_parse")
+		}
+	}
 	var leak *Violation
 	cmp := func(what string, tr transcript) *Violation {
 		st.Runs++
@@ -801,6 +894,12 @@ func (e *detEngine) Run(ci any, st *Stats) *Violation {
 			w, err := NewWorld(k)
 			b.wait(me)
 			if err == nil {
+				if i == 0 && c.CancelAt > 0 {
+					w.Ctx.CancelAt = c.CancelAt
+					if c.Deadline {
+						w.Ctx.Cause = context.DeadlineExceeded
+					}
+				}
 				left := burst
 				w.Ctx.OnPoll = func(*SimCtx) {
 					left--
